@@ -57,3 +57,23 @@ def _scatter_count(m, n, ix, k):
 scatter_count = Lemma("scatter_count", _scatter_count, "lean:Batchie.scatter_count",
                       "k pairwise distinct positions ix[0..k) below n, m[p] <=> p is one of them  ->  rank(m,n) = k   "
                       "(rank(m,n) read as the cardinality of {p<n | m[p]})")
+
+
+def _rank_complement(m, inv, n):
+    k = z3.Int("k!rcp")
+    return Implies(And(n >= 0, z3.ForAll([k], Implies(And(k >= 0, k < n), z3.Select(inv, k) == z3.Not(z3.Select(m, k))))),
+                   _rank(inv, n) + _rank(m, n) == n)
+
+
+rank_complement = Lemma("rank_complement", _rank_complement, "lean:Batchie.rank_complement",
+                        "inv is the pointwise complement of m on [0,n)  ->  rank(inv,n) + rank(m,n) = n   (card of a filter and of its complement)")
+
+
+def _rank_none(m, n):
+    k = z3.Int("k!rn")
+    return And(Implies(And(n >= 0, z3.ForAll([k], Implies(And(k >= 0, k < n), z3.Not(z3.Select(m, k))))), _rank(m, n) == 0),
+               Implies(And(n >= 0, z3.ForAll([k], Implies(And(k >= 0, k < n), z3.Select(m, k)))), _rank(m, n) == n))
+
+
+rank_none = Lemma("rank_none_or_all", _rank_none, "lean:Batchie.rank_none_or_all",
+                  "no True below n -> rank(m,n) = 0 ; all True below n -> rank(m,n) = n")
